@@ -675,6 +675,9 @@ fn rss_bytes() -> u64 {
         .unwrap_or(0)
 }
 
+/// wall-clock seconds without progress (and without CPU use) after which a worker counts as blocked for good
+const BLOCKED_WALL_SECS: f64 = 60.0;
+
 pub fn start_watchdog() {
     std::thread::Builder::new()
         .name("watchdog".into())
@@ -682,6 +685,7 @@ pub fn start_watchdog() {
             let mut last_seq = vec![0u64; MAX_SLOTS];
             let mut cpu_at_change = vec![0f64; MAX_SLOTS];
             let mut rss_at_change = vec![0u64; MAX_SLOTS];
+            let mut wall_at_change = vec![std::time::Instant::now(); MAX_SLOTS];
             loop {
                 std::thread::sleep(std::time::Duration::from_millis(100));
                 let rss = rss_bytes();
@@ -700,9 +704,29 @@ pub fn start_watchdog() {
                         last_seq[i] = seq;
                         cpu_at_change[i] = cpu;
                         rss_at_change[i] = rss;
+                        wall_at_change[i] = std::time::Instant::now();
                         continue;
                     }
                     let burned = cpu - cpu_at_change[i];
+                    // blocked = no progress for a long wall-clock time while the thread used (almost) no CPU:
+                    // it sleeps on a lock that is never released (self dead-lock on the filesystem's RwLock)
+                    if wall_at_change[i].elapsed().as_secs_f64() > BLOCKED_WALL_SECS && burned < 2.0 {
+                        let s = &slots()[i];
+                        let kind = s.kind.lock().map(|k| k.clone()).unwrap_or_default();
+                        let desc = s.desc.lock().map(|k| k.clone()).unwrap_or_default();
+                        let why = format!("call blocked: no progress for {:.0}s wall clock with {:.2}s thread cpu time (dead-lock)", wall_at_change[i].elapsed().as_secs_f64(), burned);
+                        let c = ctx();
+                        let case: Value = serde_json::from_str(&desc)
+                            .or_else(|_| serde_json::from_str(&format!("{}]", desc.trim_end_matches(','))))
+                            .unwrap_or(Value::String(desc.clone()));
+                        if c.hang_is_violation {
+                            c.violation(&kind, case, Failure::new(format!("blocked|{}", kind), why));
+                        } else {
+                            c.inconclusive(&format!("{} in case {} {}", why, kind, desc));
+                        }
+                        let code = c.finish();
+                        std::process::exit(code);
+                    }
                     if worst.map(|w| burned > w.1).unwrap_or(true) {
                         worst = Some((i, burned));
                         // memory the process gained while this one case has been running
